@@ -632,11 +632,14 @@ type enumC05 struct {
 	// yield point, right after the application's write; "later": ten yields on. The third life then starts
 	// with an LMDB that has data, but not the data of its own snapshot.
 	Again string `json:"again,omitempty"`
+	// AgedOut: remove_old_instances_interval is 1 ns - by the time the instance restarts, every snapshot in the bucket
+	// (its own included) is older than the stale-instance interval
+	AgedOut bool `json:"aged_out,omitempty"`
 }
 
 func TestC05Enum(t *testing.T) {
 	vcore.RunEnum(t, vcore.Config{Property: "C05", Inflight: true,
-		Rule: "fault enumeration: instance A publishes key k (only copy), a peer B publishes k2; A is crashed at EVERY yield point (14) while it uploads a second change, restarted with the LMDB {kept, emptied}, with its own newest snapshot {downloadable, failing to load twice, followed by an undecodable newer blob, failing to load eight times while every other listing fails, only the instance's own snapshots failing to load forty times, or reported as not existing twice}; for emptied restarts also a second kill with the LMDB kept, at the first yield point or ten yields later (third life: an LMDB with data but not the data of its own snapshot); the application writes k' right after the restart; for emptied restarts additionally with storage_force_snapshot_interval = 1 ns (a periodic snapshot always overdue) x {the application writes k', writes nothing}; both loops run on; invariants as in TestC05Bucket after every bucket mutation; non-trivial = emptied restart"},
+		Rule: "fault enumeration: instance A publishes key k (only copy), a peer B publishes k2; A is crashed at EVERY yield point (14) while it uploads a second change, restarted with the LMDB {kept, emptied}, with its own newest snapshot {downloadable, failing to load twice, followed by an undecodable newer blob, failing to load eight times while every other listing fails, only the instance's own snapshots failing to load forty times, or reported as not existing twice}; for emptied restarts also a second kill with the LMDB kept, at the first yield point or ten yields later (third life: an LMDB with data but not the data of its own snapshot); the application writes k' right after the restart; for emptied restarts with a failing own download also with remove_old_instances_interval = 1 ns (every snapshot, the own one included, counts as stale at restart); for emptied restarts additionally with storage_force_snapshot_interval = 1 ns (a periodic snapshot always overdue) x {the application writes k', writes nothing}; both loops run on; invariants as in TestC05Bucket after every bucket mutation; non-trivial = emptied restart"},
 		func(yield func(enumC05) bool) {
 			for _, native := range []bool{true, false} {
 				for _, p := range loopYieldPoints {
@@ -655,6 +658,11 @@ func TestC05Enum(t *testing.T) {
 									}
 								}
 							}
+							if !keep && (own == "fail2" || own == "own-slow") {
+								if !yield(enumC05{Native: native, Point: p, Keep: keep, Own: own, AgedOut: true}) {
+									return
+								}
+							}
 							if !keep && (own == "ok" || own == "fail2") {
 								for _, again := range []string{"at-once", "later"} {
 									if !yield(enumC05{Native: native, Point: p, Keep: keep, Own: own, Again: again}) {
@@ -671,6 +679,9 @@ func TestC05Enum(t *testing.T) {
 			c := C05Case{Native: e.Native, N: 2, MustKeep: 0, RemoveOld: int64(time.Hour)}
 			if e.Forced {
 				c.Force = 1
+			}
+			if e.AgedOut {
+				c.RemoveOld = 1
 			}
 			put := func(k int, v string) []SChange { return []SChange{{DBI: 0, Key: k, Op: "put", Val: model.Bytes(v)}} }
 			c.Ops = []C05Op{
